@@ -4,7 +4,7 @@
     code had before the repair is refuted; (2) in the engine model a request for a query that
     is being computed is answered with the cyclic error at once, marks exactly the computing
     queries between the two, and changes nothing; (3) on a fresh engine every cyclic program of
-    Normal queries terminates within an explicit fuel bound with exactly the values of an
+    Normal, Firewall and Projection queries terminates within an explicit fuel bound with exactly the values of an
     independent from-scratch-with-defaults specification.  Incremental behaviour of cyclic
     programs (later requests) is validated against the real engine, not proved - and known to
     deviate (recorded finding). *)
@@ -60,13 +60,14 @@ Proof. exact request_on_stack_is_cyclic. Qed.
     marks every query from it up to the reader; a marked query is abandoned at its next read and
     takes [scc_default]; an unmarked reader sees that default as an ordinary value; completed
     queries are memoised) - the same definition as the harness's oracle [oracle_cyclic], and
-    deterministic.  For every program of Normal queries over inputs with ARBITRARY reads (self
+    deterministic.  For every program of Normal, Firewall and Projection queries over inputs
+    (a projection reads firewalls and projections only) with ARBITRARY reads (self
     loops, several strongly connected components, conditional cycle edges: no rank hypothesis),
     the first query after the inputs were set answers exactly the [cyc_spec] value, executes
     every query at most once, never panics or gets stuck, and the explicit fuel bound
     [cyc_fuel p = length p * (max_depth p + 2) + 1] suffices (termination of whole programs).
     A later query on an engine that has computed before is NOT covered (recorded finding
-    c06_incremental_scc_membership); firewalls / projections on cycles are not covered either. *)
+    c06_incremental_scc_membership); external inputs are not covered. *)
 Theorem C06_cyc_spec_deterministic :
   forall p inp root v1 v2, cyc_spec p inp root v1 -> cyc_spec p inp root v2 -> v1 = v2.
 Proof. exact MdlCyc.cyc_spec_det. Qed.
